@@ -27,12 +27,12 @@
 using namespace jsoncons;
 
 static long g_calls = 0, g_sampled = 0; static long g_by[5] = {0, 0, 0, 0, 0};
-static size_t g_idx = 0; static const mj::Value* g_case = nullptr;
+static size_t g_idx = 0; static const mj::Value* g_case = nullptr; static std::string g_variant;   // the truncation / substitution of the expression in flight
 static void record(const char* ep, const char* out, const std::string& detail) {
     bool bad = !(strcmp(out, "Return") == 0 || strcmp(out, "ErrorCode") == 0 || strcmp(out, "JsonException") == 0);
     if (bad || g_sampled < 40) {
         mj::Value t = hz::rec(bad ? "mismatch" : "trace"); t.set("idx", (int64_t)g_idx); t.set("ep", ep); t.set("out", out); t.set("detail", detail);
-        if (bad) { t.set("what", out); t.set("case", *g_case); hz::emit_mismatch(t); } else { hz::emit(t); ++g_sampled; }
+        if (bad) { t.set("what", out); t.set("x", g_variant); t.set("case", *g_case); hz::emit_mismatch(t); } else { hz::emit(t); ++g_sampled; }
     }
 }
 template <class F> static void call(const char* ep, F f) {
@@ -78,6 +78,7 @@ static std::vector<std::string> variants(const std::string& e) {
 }
 static void expr_inputs(const std::string& kind, const std::string& e) {
     for (const std::string& x : variants(e)) {
+        g_variant = x;
         if (kind == "jmespath") { call("jmespath::search(ec)", [&] { std::error_code ec; auto r = jmespath::search(sample_doc(), x, ec); return (bool)ec; });
                                   call("jmespath::make_expression", [&] { auto ex = jmespath::make_expression<json>(x); auto r = ex.evaluate(sample_doc()); return false; }); }
         else if (kind == "jsonpath") { call("jsonpath::json_query", [&] { auto r = jsonpath::json_query(sample_doc(), x, jsonpath::result_options::path | jsonpath::result_options::nodups); auto r2 = jsonpath::json_query(sample_doc(), x); return false; });
@@ -87,6 +88,7 @@ static void expr_inputs(const std::string& kind, const std::string& e) {
                call("jsonpointer ops(ec)", [&] { json d = sample_doc(); std::error_code ec; jsonpointer::get(d, x, ec); std::error_code e2; jsonpointer::add(d, x, json(1), true, e2); std::error_code e3; jsonpointer::remove(d, x, e3); std::error_code e4; jsonpointer::replace(d, x, json(2), e4); return (bool)ec; });
                call("jsonpointer::get (throwing)", [&] { const json& r = jsonpointer::get(sample_doc(), x); (void)r; return false; }); }
     }
+    g_variant.clear();
 }
 static void schema_inputs(const mj::Value& w) {
     json schema = jc::build_doc<json>(w);
@@ -100,6 +102,39 @@ static void schema_inputs(const mj::Value& w) {
 static void patch_inputs(const mj::Value& d, const mj::Value& p) {
     call("jsonpatch::apply_patch(ec)", [&] { json doc = jc::build_doc<json>(d); json patch = jc::build_doc<json>(p); std::error_code ec; jsonpatch::apply_patch(doc, patch, ec); return (bool)ec; });
     call("jsonpatch::apply_patch(malformed)", [&] { json doc = jc::build_doc<json>(d); json patch = jc::build_doc<json>(p); if (patch.is_array() && patch.size() > 0) { patch[0] = json(5); patch.push_back(json::parse("{\"op\":7,\"path\":\"/a\"}")); patch.push_back(json::parse("{\"op\":\"add\",\"path\":1,\"value\":1}")); } std::error_code ec; jsonpatch::apply_patch(doc, patch, ec); return (bool)ec; });
+}
+
+// ---- encoder side: (value, option set) through every text / binary encoder
+static json_options enc_options(const mj::Value& o) {
+    json_options r; auto I = [&](const char* k) { return (long)o[k].as_int(); };
+    r.float_format((float_chars_format)I("ff")); r.precision((int8_t)I("prec"));
+    r.bignum_format((bignum_format_kind)I("bignum")); if (I("bsf")) r.byte_string_format((byte_string_chars_format)I("bsf"));
+    switch (I("nan")) { case 1: r.nan_to_num("0").inf_to_num("1e9999").neginf_to_num("-1e9999"); break; case 2: r.nan_to_num("").inf_to_num("Infinity").neginf_to_num("\"x"); break;
+                        case 3: r.nan_to_str("NaN").inf_to_str("Inf").neginf_to_str("-Inf"); break; case 4: r.nan_to_num("null").nan_to_str("NaN").inf_to_str("").neginf_to_num("-0"); break; default: break; }
+    r.escape_all_non_ascii(I("eana") != 0).escape_solidus(I("esol") != 0).indent_size((uint8_t)I("indent")).indent_char((char)I("ichar"));
+    r.spaces_around_colon((spaces_option)I("sac")).spaces_around_comma((spaces_option)I("scm")).pad_inside_object_braces(I("pob") != 0).pad_inside_array_brackets(I("pab") != 0);
+    r.object_object_line_splits((line_split_kind)I("oo")).array_object_line_splits((line_split_kind)I("ao")).object_array_line_splits((line_split_kind)I("oa")).array_array_line_splits((line_split_kind)I("aa")).root_line_splits((line_split_kind)I("root"));
+    r.line_length_limit((std::size_t)I("lll")); { static const char* nls[] = {"\n", "\r\n", "", "<br>"}; r.new_line_chars(nls[I("nl")]); }
+    r.max_nesting_depth((int)I("depth"));
+    return r;
+}
+static void enc_inputs(const mj::Value& v, const mj::Value& o) {
+    json j = v[0].str() == "big" ? json(v[2].str(), v[1].str() == "bigint" ? semantic_tag::bigint : semantic_tag::bigdec) : bv::build<json>(v);
+    ojson oj = v[0].str() == "big" ? ojson(v[2].str(), v[1].str() == "bigint" ? semantic_tag::bigint : semantic_tag::bigdec) : bv::build<ojson>(v);
+    json_options opt = enc_options(o);
+    call("json::dump(options)", [&] { std::string s; j.dump(s, opt); return false; });
+    call("json::dump_pretty(options)", [&] { std::string s; j.dump_pretty(s, opt); return false; });
+    call("json::dump(options, ec)", [&] { std::string s; std::error_code ec; j.dump(s, opt, ec); std::string t; std::error_code e2; oj.dump_pretty(t, opt, e2); return (bool)ec || (bool)e2; });
+    call("ostream << pretty_print(options)", [&] { std::ostringstream os; os << pretty_print(oj, opt); std::ostringstream os2; os2 << print(j, opt); return false; });
+    call("json_stream_encoder(options)", [&] { std::ostringstream os; json_stream_encoder e(os, opt); j.dump(e); return false; });
+    call("encode_json(options, indent)", [&] { std::string s; encode_json(j, s, opt, indenting::indent); std::string t; encode_json(oj, t, opt, indenting::no_indent); return false; });
+    call("encode_cbor(options)", [&] { std::vector<uint8_t> b; cbor::encode_cbor(j, b, cbor::cbor_options{}.pack_strings(o["eana"].as_int() != 0).max_nesting_depth((int)o["depth"].as_int())); return false; });
+    call("encode_msgpack(options)", [&] { std::vector<uint8_t> b; msgpack::encode_msgpack(j, b, msgpack::msgpack_options{}.max_nesting_depth((int)o["depth"].as_int())); return false; });
+    call("encode_ubjson(options)", [&] { std::vector<uint8_t> b; ubjson::encode_ubjson(j, b, ubjson::ubjson_options{}.max_nesting_depth((int)o["depth"].as_int())); return false; });
+    call("encode_bson(options)", [&] { std::vector<uint8_t> b; bson::encode_bson(j, b, bson::bson_options{}.max_nesting_depth((int)o["depth"].as_int())); return false; });
+    call("encode_csv(options)", [&] { std::string s; csv::csv_options co; co.float_format((float_chars_format)o["ff"].as_int()).precision((int8_t)o["prec"].as_int()).quote_style((csv::quote_style_kind)(o["sac"].as_int() % 4));
+                                       if (o["ichar"].as_int() == 9) co.field_delimiter('\t'); csv::encode_csv(j, s, co); return false; });
+    call("encode_toon(options)", [&] { std::string s; jsoncons::toon::encode_toon(j, s, jsoncons::toon::toon_options{}.indent((int)o["indent"].as_int() % 9)); return false; });
 }
 
 int main(int argc, char** argv) {
@@ -116,6 +151,7 @@ int main(int argc, char** argv) {
         else if (c.has("k") && c["k"].is_str() && c["k"].str() == "str") expr_inputs("pointer", jc::cps_to_utf8(c["s"]));
         else if (c.has("k") && c["k"].is_str() && c["k"].str() == "c" && c.has("s")) schema_inputs(c["s"]);
         else if (c.has("patch")) patch_inputs(c["d"], c["patch"]);
+        else if (c.has("k") && c["k"].is_str() && c["k"].str() == "enc") enc_inputs(c["v"], c["o"]);
     });
     mj::Value s = hz::rec("stat"); s.set("cases", (int64_t)ncases); s.set("calls", g_calls); s.set("returned", g_by[0]); s.set("error_codes", g_by[1]); s.set("json_exceptions", g_by[2]); s.set("assertion_errors", g_by[3]); s.set("foreign_exceptions", g_by[4]);
     hz::emit(s);
